@@ -79,6 +79,27 @@ pub fn gen_block_threshold(rng: &mut Rng, k: u64) -> Hist {
     Hist { cfg, api, plain, class, steps, tail_out: out, family: "block_threshold_flush" }
 }
 
+/// Input trickled in one (or zero, or two) bytes per call with flush None for more than one
+/// window / block threshold, so that every internal threshold is crossed by a call whose input
+/// is already exhausted.
+pub fn gen_trickle(rng: &mut Rng, k: u64) -> Hist {
+    let cfg = Config { level: (k % 11) as u8, strategy: if k % 3 == 0 { *rng.pick(&STRATEGIES) } else { CompressionStrategy::Default }, zlib: rng.bool(), wbits: if rng.chance(1, 4) { 8 + rng.below(8) as u8 } else { 15 } };
+    let n = 31_000 + rng.below(40_000);
+    let class = *rng.pick(&[6usize, 11, 5, 13, 0]);
+    let plain = data::gen(rng, class, n);
+    let api = if rng.chance(1, 4) { Api::Deflate } else if rng.chance(1, 5) { Api::CompressToOutput } else { Api::Compress };
+    let out = *rng.pick(&[1usize, 64, 4096, 200_000, 200_000]);
+    let two = rng.chance(1, 6);
+    let mut steps = Vec::with_capacity(n + 8);
+    let mut left = n;
+    while left > 0 {
+        let c = if two && rng.chance(1, 50) { 2.min(left) } else if rng.chance(1, 200) { 0 } else { 1 };
+        steps.push(CStep { chunk: c, out_len: out, flush: TDEFLFlush::None });
+        left -= c;
+    }
+    Hist { cfg, api, plain, class, steps, tail_out: out.max(64), family: "trickle_one_byte_input" }
+}
+
 pub fn run_one(prop: &str, rep: &mut Report, h: &Hist) -> Option<(CRun, crate::refimpl::inflate::Outcome)> {
     let mut c = h.cfg.make();
     let run = run_history(&mut c, h.api, &h.plain, &h.steps, h.tail_out);
@@ -145,7 +166,8 @@ pub fn run(ctx: &Ctx, rep: &mut Report) {
     let n = ctx.n(10_000, 200_000);
     let n_fill = ctx.n(96, 1500);
     let n_thr = ctx.n(1200, 30_000);
-    for k in ctx.cases(n + n_fill + n_thr) {
+    let n_tr = ctx.n(220, 4000);
+    for k in ctx.cases(n + n_fill + n_thr + n_tr) {
         rep.cur_case = k;
         crate::ctx::begin_case(k);
         let mut rng = ctx.rng("case", k);
@@ -153,8 +175,10 @@ pub fn run(ctx: &Ctx, rep: &mut Report) {
             gen_history(&mut rng, k, if ctx.thorough() { 300_000 } else { 120_000 })
         } else if k < n + n_fill {
             gen_lzfill(&mut rng)
-        } else {
+        } else if k < n + n_fill + n_thr {
             gen_block_threshold(&mut rng, k)
+        } else {
+            gen_trickle(&mut rng, k)
         };
         let _ = run_one("C02", rep, &h);
     }
